@@ -29,3 +29,125 @@ def gen_key(d: dict) -> str:
     extra = "" if (d["amb"] == "spaced" and d["lead"] == "" and d["trail"] == "\n") else \
         f"|amb={d['amb']}|lead={d['lead']!r}|trail={d['trail']!r}"
     return f"{d['con']}|ctx={d['ctx']}|fill={fills}{extra}"
+
+
+# ---------------------------------------------------------------------------
+# Doc records -> canonical (RFC-0166 style) Nix text for the package-file idiom
+
+import re as _re
+
+_BARE = _re.compile(r"^[A-Za-z_][A-Za-z0-9_'-]*$")
+_KEYWORDS = {"let", "in", "with", "assert", "if", "then", "else", "rec", "inherit", "or"}
+
+
+def quote_name(n: str) -> str:
+    """Nix spelling of an attribute name (independent of the code under test)."""
+    if n.startswith("${dyn}"):
+        return n[len("${dyn}"):]
+    if _BARE.match(n) and n not in _KEYWORDS:
+        return n
+    out = []
+    i = 0
+    while i < len(n):
+        ch = n[i]
+        if ch == "\\":
+            out.append("\\\\")
+        elif ch == '"':
+            out.append('\\"')
+        elif ch == "\n":
+            out.append("\\n")
+        elif ch == "\r":
+            out.append("\\r")
+        elif ch == "\t":
+            out.append("\\t")
+        elif ch == "$" and n[i + 1:i + 2] == "{":
+            out.append("\\${")
+            i += 2
+            continue
+        else:
+            out.append(ch)
+        i += 1
+    return '"' + "".join(out) + '"'
+
+
+def _comment(key: str, ind: int) -> str:
+    kind, text = key[:2], key[2:]
+    pad = " " * ind
+    if kind == "L:":
+        return pad + ("# " + text if text else "#")
+    opener = "/**" if kind == "D:" else "/*"
+    if "\n" in text:
+        lines = text.split("\n")
+        return pad + opener + "\n" + "\n".join((pad + "  " + ln) if ln else "" for ln in lines) + "\n" + pad + "*/"
+    return f"{pad}{opener} {text} */"
+
+
+def _val(v: dict, ind: int) -> str:
+    k = v["k"]
+    if k == "int":
+        return str(v["v"])
+    if k == "ref":
+        return v["n"]
+    if k == "opq":
+        return v["h"]
+    pre = "rec " if v.get("rec") else ""
+    items = v["items"]
+    dang = v.get("dang", [])
+    if not items and not dang:
+        return pre + "{ }"
+    if v.get("ml", True) or dang:
+        body = _items(items, ind + 2)
+        for c in dang:
+            body.append(_comment(c, ind + 2))
+        return pre + "{\n" + "\n".join(body) + "\n" + " " * ind + "}"
+    return pre + "{ " + " ".join(_item_inline(x) for x in items) + " }"
+
+
+def _binding_core(x: dict, ind: int) -> str:
+    if x["k"] == "i":
+        src = f"({x['src']}) " if x.get("src") else ""
+        return f"inherit {src}{' '.join(quote_name(n) for n in x['names'])};"
+    return f"{'.'.join(quote_name(n) for n in x['ap'])} = {_val(x['val'], ind)};"
+
+
+def _item_inline(x: dict) -> str:
+    return _binding_core(x, 0)
+
+
+def _items(items: list, ind: int) -> list[str]:
+    out: list[str] = []
+    pad = " " * ind
+    for n, x in enumerate(items):
+        if x.get("blank") and n > 0:
+            out.append("")
+        for c in x.get("lead", []):
+            out.append(_comment(c, ind))
+        line = pad + _binding_core(x, ind)
+        if x.get("eol"):
+            line += " " + _comment(x["eol"], 0)
+        out.append(line)
+    return out
+
+
+WRAP_TEXT = {
+    "lam_id": ("x: ", ""),
+    "lam_formals": ("{ p, q }:\n", ""),
+    "with": ("with p;\n", ""),
+    "assert": ("assert c;\n", ""),
+    "paren": ("(", ")"),
+    "call": ("f ", ""),
+    "let": ("let\n  o = 1;\nin\n", ""),      # a let that is NOT directly around the set (no addressable layer)
+}
+
+
+def render_doc(d: dict) -> str:
+    """Canonical text of an editable document (shape "ok")."""
+    inner = _val(d["body"], 0)
+    for layer in reversed(d["layers"]):
+        inner = "let\n" + "\n".join(_items(layer, 2)) + "\nin\n" + inner
+    for w in reversed(d["wrap"]):
+        pre, post = WRAP_TEXT[w]
+        inner = pre + inner + post
+    head = "".join(_comment(c, 0) + "\n" for c in d.get("lead", []))
+    foot = "".join("\n" + _comment(c, 0) for c in d.get("trail", []))
+    return head + inner + foot + "\n" * d.get("nl", 1)
